@@ -65,12 +65,12 @@ Print Assumptions C13_source_is_loopless.
    exactly when the model refuses, and otherwise all three fields (adjacency, per-vertex valences, total) represent the model's next state ---- *)
 Theorem C13_source_add_edge : forall gg vtv tv s a b k, ginv s -> rep_gstate gg vtv tv s ->
   match TranslatedImpCFGraph.CFGraph_add_edge gg vtv tv a b k with
-  | None => add_edge s a b k = Err
-  | Some (gg', vtv', tv') => exists s', add_edge s a b k = Ok s' /\ rep_gstate gg' vtv' tv' s' end.
+  | PyExn st => add_edge s a b k = Err /\ st = (gg, vtv, tv)
+  | PyOk (gg', vtv', tv') => exists s', add_edge s a b k = Ok s' /\ rep_gstate gg' vtv' tv' s' end.
 Proof. exact add_edge_refines. Qed.
 Print Assumptions C13_source_add_edge.
 Theorem C13_source_get_valence : forall gg vtv tv s v, rep_gstate gg vtv tv s ->
-  TranslatedImpCFGraph.CFGraph_get_valence vtv v = if Nat.ltb v (gn s) then Some (nthZ (valc s) v) else None.
+  TranslatedImpCFGraph.CFGraph_get_valence vtv v = if Nat.ltb v (gn s) then PyOk (nthZ (valc s) v) else PyExn tt.
 Proof. exact get_valence_refines. Qed.
 Print Assumptions C13_source_get_valence.
 (* every state satisfying the invariant has such dictionaries *)
@@ -79,7 +79,7 @@ Proof. intros s (Hwf & HL & _). split; [apply rep_graph_of; exact Hwf|]. split; 
 Print Assumptions C13_source_states_representable.
 Example C13_source_nonvacuous : let s := fst (add_edges (ginit 3) [(0%nat, 1%nat, 2); (1%nat, 2%nat, 1)]) in
   match TranslatedImpCFGraph.CFGraph_add_edge (dict_of_graph (adj s)) (dict_of_div (valc s)) (tot s) 1%nat 0%nat 1 with
-  | Some (gg', vtv', tv') => d_find 0%nat vtv' = Some 3 /\ tv' = 4 /\ (match d_find 1%nat gg' with Some r => d_find 0%nat r | None => None end) = Some 3
-  | None => False end /\
-  TranslatedImpCFGraph.CFGraph_add_edge (dict_of_graph (adj s)) (dict_of_div (valc s)) (tot s) 1%nat 1%nat 1 = None.
+  | PyOk (gg', vtv', tv') => d_find 0%nat vtv' = Some 3 /\ tv' = 4 /\ (match d_find 1%nat gg' with Some r => d_find 0%nat r | None => None end) = Some 3
+  | PyExn _ => False end /\
+  TranslatedImpCFGraph.CFGraph_add_edge (dict_of_graph (adj s)) (dict_of_div (valc s)) (tot s) 1%nat 1%nat 1 = PyExn (dict_of_graph (adj s), dict_of_div (valc s), tot s).
 Proof. vm_compute. repeat split. Qed.
